@@ -708,4 +708,418 @@ theorem doUpdate_status (a : UpdateArgs) (d : Disk) (x : Handle) (mj : JsView) (
         by rw [c1]; simp only; rw [hic]; exact id, by rw [c3]; omega, by rw [r4]; omega,
         fun _ => by rw [c3]; omega, fun _ => by rw [r4]; omega⟩
 
+/-! ## the other operations -/
+
+theorem Mono.refl (d : Disk) : Mono d d :=
+  ⟨Nat.le_refl _, Nat.le_refl _, rfl, ⟨rfl, fun i v v' h h' => by rw [h] at h'; cases h'; exact ⟨Nat.le_refl _, fun _ h => h, rfl⟩⟩,
+   id, Nat.le_refl _, Nat.le_refl _, fun h => absurd rfl h, fun h => absurd rfl h⟩
+
+theorem JobsAhead.refl (l : List JobView) : JobsAhead l l :=
+  ⟨rfl, fun i v v' h h' => by rw [h] at h'; cases h'; exact ⟨Nat.le_refl _, fun _ h => h, rfl⟩⟩
+
+/-- a config-only method (`x1` = the handle after the in-memory assignment) by a handle whose config copy is the disk's:
+    counters untouched ⇒ the status relations are untouched -/
+theorem cfgOnly_status (d : Disk) (x1 : Handle) (hI : StatusInv d)
+    (h1 : x1.cfg.submitted = d.cfg.submitted) (h2 : x1.cfg.completed = d.cfg.completed)
+    (h3 : x1.cfg.numJobs = d.cfg.numJobs) (h4 : x1.cfg.version = d.cfg.version)
+    (h5 : d.cfg.isComplete = true → x1.cfg.isComplete = true) :
+    StatusInv (serializeCfg d x1).1 ∧ Mono d (serializeCfg d x1).1 ∧ (serializeCfg d x1).1.marker = d.marker ∧
+    (serializeCfg d x1).2.2 = none := by
+  have hv : x1.cfg.version = d.cfgVer := by rw [h4]; exact hI.verCfg
+  rcases serializeCfg_cases d x1 with ⟨g1, _⟩ | ⟨_, _, g3⟩ | ⟨_, _, g3⟩
+  · exact absurd hv g1
+  · rw [g3]; exact ⟨hI, Mono.refl d, rfl, rfl⟩
+  · rw [g3]
+    refine ⟨⟨?_, ?_, ?_, hI.blockers, rfl, hI.verJs⟩, ⟨?_, ?_, ?_, JobsAhead.refl _, h5, ?_, Nat.le_refl _, ?_, ?_⟩, rfl, rfl⟩
+    · show x1.cfg.numJobs = _; rw [h3]; exact hI.total
+    · show x1.cfg.completed = _; rw [h2]; exact hI.completed
+    · show x1.cfg.submitted = _; rw [h1]; exact hI.submitted
+    · show _ ≤ x1.cfg.submitted; rw [h1]; exact Nat.le_refl _
+    · show _ ≤ x1.cfg.completed; rw [h2]; exact Nat.le_refl _
+    · show x1.cfg.numJobs = _; exact h3
+    · show d.cfgVer ≤ x1.cfg.version + 1; omega
+    · intro _; show d.cfgVer < x1.cfg.version + 1; omega
+    · intro h; exact absurd rfl h
+
+theorem create_status (host : Host) (spec : List (List JobId × Bool)) (brk : Bool) :
+    StatusInv (create host spec brk).disk := by
+  rw [create_eq]
+  have hnone : ∀ p : JobView → Bool, (∀ v ∈ createJobs spec, p v = false) → (createJobs spec).countP p = 0 := by
+    intro p hp
+    rw [List.countP_eq_zero]
+    intro v hv; rw [hp v hv]; simp
+  have hst : ∀ v ∈ createJobs spec, v.state = .notSubmitted := by
+    intro v hv
+    simp only [createJobs, List.mem_map] at hv
+    obtain ⟨_, _, rfl⟩ := hv
+    rfl
+  refine ⟨?_, ?_, ?_, ?_, rfl, rfl⟩
+  · simp [createCfg, createJs, createJobs]
+  · show 0 = (createJobs spec).countP isDone; rw [hnone]; intro v hv; simp [isDone, hst v hv]
+  · show 0 = (createJobs spec).countP isSubm; rw [hnone]; intro v hv; simp [isSubm, hst v hv]
+  · intro v hv hs; exact absurd (hst v hv) hs
+
+/-- promote / demote / mark_complete / mark_canceled by a handle whose config copy is current and equal to the disk's -/
+theorem cfgOps_status (d : Disk) (x : Handle) (hI : StatusInv d) (hcfg : x.cfg = d.cfg)
+    (hhash : ∀ c : CfgView, x.cfgHash = some (Snap.cfg c) → c = d.cfg) :
+    (StatusInv (doPromote d x).1 ∧ Mono d (doPromote d x).1 ∧ (doPromote d x).1.marker = d.marker) ∧
+    (StatusInv (doDemote d x).1 ∧ Mono d (doDemote d x).1 ∧ (doDemote d x).1.marker = d.marker) ∧
+    (StatusInv (doMarkComplete d x).1 ∧ Mono d (doMarkComplete d x).1 ∧ (doMarkComplete d x).1.marker = d.marker ∧
+      (d.cfg.isComplete = false → (doMarkComplete d x).2.2 = .ok ∧ (doMarkComplete d x).1.cfg.isComplete = true)) ∧
+    (StatusInv (doMarkCanceled d x).1 ∧ Mono d (doMarkCanceled d x).1 ∧ (doMarkCanceled d x).1.marker = d.marker ∧
+      (doMarkCanceled d x).2.2 = .ok) := by
+  refine ⟨?_, ?_, ?_, ?_⟩
+  · unfold doPromote
+    split
+    · exact ⟨hI, Mono.refl d, rfl⟩
+    · obtain ⟨a1, a2, a3, _⟩ := cfgOnly_status d { x with cfg := { x.cfg with submitter := some x.host } } hI
+        (by rw [hcfg]) (by rw [hcfg]) (by rw [hcfg]) (by rw [hcfg]) (by intro h; simp only; rw [hcfg]; exact h)
+      exact ⟨a1, a2, a3⟩
+  · unfold doDemote
+    split
+    · obtain ⟨a1, a2, a3, _⟩ := cfgOnly_status d { x with cfg := { x.cfg with submitter := none } } hI
+        (by rw [hcfg]) (by rw [hcfg]) (by rw [hcfg]) (by rw [hcfg]) (by intro h; simp only; rw [hcfg]; exact h)
+      exact ⟨a1, a2, a3⟩
+    · exact ⟨hI, Mono.refl d, rfl⟩
+  · unfold doMarkComplete
+    split
+    · next has =>
+      obtain ⟨a1, a2, a3, a4⟩ := cfgOnly_status d { x with cfg := { x.cfg with isComplete := true } } hI
+        (by rw [hcfg]) (by rw [hcfg]) (by rw [hcfg]) (by rw [hcfg]) (by intro _; rfl)
+      refine ⟨a1, a2, a3, ?_⟩
+      intro hic
+      refine ⟨by simp only; rw [a4]; rfl, ?_⟩
+      -- the flag changed, so the config was written
+      rcases serializeCfg_cases d { x with cfg := { x.cfg with isComplete := true } } with ⟨g1, _⟩ | ⟨g1, g2, _⟩ | ⟨_, _, g3⟩
+      · exact absurd (by show x.cfg.version = d.cfgVer; rw [hcfg]; exact hI.verCfg) g1
+      · exfalso
+        have := congrArg CfgView.isComplete (hhash _ g2)
+        simp only at this
+        rw [hic] at this; cases this
+      · simp only; rw [g3]
+    · next has =>
+      refine ⟨hI, Mono.refl d, rfl, ?_⟩
+      intro hic
+      exfalso; apply has
+      rw [markCompleteAssert_iff, hcfg]; exact hic
+  · unfold doMarkCanceled
+    obtain ⟨a1, a2, a3, a4⟩ := cfgOnly_status d { x with cfg := { x.cfg with isCanceled := true } } hI
+      (by rw [hcfg]) (by rw [hcfg]) (by rw [hcfg]) (by rw [hcfg]) (by intro h; simp only; rw [hcfg]; exact h)
+    exact ⟨a1, a2, a3, by simp only; rw [a4]; rfl⟩
+
+/-- `complete_hpc_job_id` by a handle whose job-status copy IS the disk's -/
+theorem doCompleteHpcId_status (id : Nat) (d : Disk) (x : Handle) (hI : StatusInv d) (hjs : x.js = some d.js) :
+    StatusInv (doCompleteHpcId id d x).1 ∧ Mono d (doCompleteHpcId id d x).1 ∧
+    (doCompleteHpcId id d x).1.marker = d.marker := by
+  unfold doCompleteHpcId
+  rw [hjs]
+  simp only
+  split
+  · rcases serializeJs_cases d { x with js := some { d.js with hpcIds := d.js.hpcIds.erase id } }
+        { d.js with hpcIds := d.js.hpcIds.erase id } with ⟨g1, _⟩ | ⟨_, _, g3⟩ | ⟨_, _, g3⟩
+    · exact absurd hI.verJs g1
+    · rw [g3]; exact ⟨hI, Mono.refl d, rfl⟩
+    · rw [g3]
+      refine ⟨⟨hI.total, hI.completed, hI.submitted, hI.blockers, hI.verCfg, rfl⟩,
+        ⟨Nat.le_refl _, Nat.le_refl _, rfl, JobsAhead.refl _, fun h => h, Nat.le_refl _, ?_, fun h => absurd rfl h, ?_⟩, rfl⟩
+      · show d.jsVer ≤ d.js.version + 1; rw [hI.verJs]; omega
+      · intro _; show d.jsVer < d.js.version + 1; rw [hI.verJs]; omega
+  · exact ⟨hI, Mono.refl d, rfl⟩
+
+/-! ## a second SUBMITTED for the same job is an assertion error -/
+
+theorem submitOne_cases (j : JobId) (m : Mem) :
+    (m.js.jobs[j]? = none ∧ submitOne j m = (m, some .keyError)) ∨
+    (∃ w : JobView, m.js.jobs[j]? = some w ∧ w.state = .submitted ∧ submitOne j m = (m, some .assertion)) ∨
+    (∃ w : JobView, m.js.jobs[j]? = some w ∧ w.state ≠ .submitted ∧
+      submitOne j m = ({ cfg := { m.cfg with submitted := m.cfg.submitted + 1 },
+                         js := { m.js with jobs := m.js.jobs.set j { w with state := .submitted } } }, none)) := by
+  unfold submitOne
+  cases hj : m.js.jobs[j]? with
+  | none => left; exact ⟨rfl, rfl⟩
+  | some w =>
+    right
+    by_cases hs : w.state = .submitted
+    · left
+      have : submitAssert w.state = false := by rw [Bool.eq_false_iff, ne_eq, submitAssert_iff]; simpa using hs
+      simp only [this, Bool.false_eq_true, if_false]
+      exact ⟨w, rfl, hs, trivial⟩
+    · right
+      have : submitAssert w.state = true := (submitAssert_iff _).2 hs
+      simp only [this, if_true]
+      exact ⟨w, rfl, hs, rfl⟩
+
+theorem submitLoop_err_of_submitted : ∀ (subs : List JobId) (m : Mem),
+    (∃ i ∈ subs, ∃ v : JobView, m.js.jobs[i]? = some v ∧ v.state = .submitted) →
+    (forEach submitOne subs m).2 ≠ none := by
+  intro subs
+  induction subs with
+  | nil => intro m ⟨i, hi, _⟩; cases hi
+  | cons j subs ih =>
+    intro m ⟨i, hi, v, hv, hs⟩
+    rcases submitOne_cases j m with ⟨_, h2⟩ | ⟨w, _, _, h2⟩ | ⟨w, hw, hws, h2⟩
+    · rw [forEach_cons_err _ _ _ _ _ _ h2]; simp
+    · rw [forEach_cons_err _ _ _ _ _ _ h2]; simp
+    · rw [forEach_cons_ok _ _ _ _ _ h2]
+      apply ih
+      have hij : i ≠ j := by
+        intro e; subst e; rw [hv] at hw; cases hw; exact hws hs
+      rcases List.mem_cons.1 hi with e | hi'
+      · exact absurd e hij
+      · exact ⟨i, hi', v, by simp only; rw [List.getElem?_set_ne (Ne.symm hij)]; exact hv, hs⟩
+
+theorem submitLoop_err_of_dup : ∀ (subs : List JobId) (m : Mem), ¬ subs.Nodup →
+    (forEach submitOne subs m).2 ≠ none := by
+  intro subs
+  induction subs with
+  | nil => intro m h; exact absurd List.nodup_nil h
+  | cons j subs ih =>
+    intro m hnd
+    rcases submitOne_cases j m with ⟨_, h2⟩ | ⟨w, _, _, h2⟩ | ⟨w, hw, _, h2⟩
+    · rw [forEach_cons_err _ _ _ _ _ _ h2]; simp
+    · rw [forEach_cons_err _ _ _ _ _ _ h2]; simp
+    · rw [forEach_cons_ok _ _ _ _ _ h2]
+      by_cases hj : j ∈ subs
+      · apply submitLoop_err_of_submitted
+        refine ⟨j, hj, { w with state := .submitted }, ?_, rfl⟩
+        simp only
+        rw [List.getElem?_set_self (getElem?_some_lt hw)]
+      · apply ih
+        intro h; exact hnd (List.nodup_cons.2 ⟨hj, h⟩)
+
+theorem submitLoop_err_kind : ∀ (subs : List JobId) (m : Mem), (∀ i ∈ subs, i < m.js.jobs.length) →
+    (forEach submitOne subs m).2 = none ∨ (forEach submitOne subs m).2 = some .assertion := by
+  intro subs
+  induction subs with
+  | nil => intro m _; exact Or.inl rfl
+  | cons j subs ih =>
+    intro m hval
+    rcases submitOne_cases j m with ⟨h1, _⟩ | ⟨w, _, _, h2⟩ | ⟨w, _, _, h2⟩
+    · have := hval j (List.mem_cons_self ..)
+      rw [List.getElem?_eq_getElem this] at h1; cases h1
+    · rw [forEach_cons_err _ _ _ _ _ _ h2]; exact Or.inr rfl
+    · rw [forEach_cons_ok _ _ _ _ _ h2]
+      apply ih
+      intro i hi
+      simp only [List.length_set]
+      exact hval i (List.mem_cons_of_mem _ hi)
+
+theorem andThen_of_err (r : Mem × Option Err) (f : Mem → Mem × Option Err) (e : Err) (h : r.2 = some e) :
+    andThen r f = r := by
+  rcases r with ⟨m, e'⟩
+  simp only at h
+  subst h
+  rfl
+
+/-- `update_job_status` by a handle whose copies are current, with a job listed as submitted twice or already SUBMITTED
+    in the handle's copy: AssertionError under the lock, nothing is written -/
+theorem doUpdate_double_submit (a : UpdateArgs) (d : Disk) (x : Handle) (mj : JsView) (hv : x.cfg.version = d.cfgVer)
+    (hjs : x.js = some mj) (hver : mj.version = d.jsVer)
+    (hbad : ¬ a.submitted.Nodup ∨ ∃ i ∈ a.submitted, ∃ v : JobView, mj.jobs[i]? = some v ∧ v.state = .submitted)
+    (hvalid : ∀ i ∈ a.submitted, i < mj.jobs.length) :
+    (doUpdate a d x).2.2 = .err .assertion ∧ (doUpdate a d x).1 = d := by
+  have herr : (forEach submitOne a.submitted
+      { cfg := x.cfg, js := { mj with hpcIds := a.hpcIds, batchIdx := a.batchIdx } }).2 = some .assertion := by
+    have h1 : (forEach submitOne a.submitted
+        { cfg := x.cfg, js := { mj with hpcIds := a.hpcIds, batchIdx := a.batchIdx } }).2 ≠ none := by
+      rcases hbad with h | h
+      · exact submitLoop_err_of_dup _ _ h
+      · exact submitLoop_err_of_submitted _ _ h
+    rcases submitLoop_err_kind a.submitted
+        { cfg := x.cfg, js := { mj with hpcIds := a.hpcIds, batchIdx := a.batchIdx } } hvalid with h | h
+    · exact absurd h h1
+    · exact h
+  have hu : (applyUpdate a { cfg := x.cfg, js := mj }).2 = some .assertion := by
+    unfold applyUpdate
+    simp only
+    rw [andThen_of_err _ _ _ herr, andThen_of_err _ _ _ herr, andThen_of_err _ _ _ herr, andThen_of_err _ _ _ herr]
+    exact herr
+  unfold doUpdate checkVersions
+  have h0 : checkCfgMismatch x.cfg.version d.cfgVer = false := by
+    rw [Bool.eq_false_iff, ne_eq, checkCfgMismatch_iff]; simpa using hv
+  have h1 : checkJsMismatch mj.version d.jsVer = false := by
+    rw [Bool.eq_false_iff, ne_eq, checkJsMismatch_iff]; simpa using hver
+  simp only [h0, Bool.false_eq_true, if_false, hjs, h1, hu]
+  exact ⟨trivial, trivial⟩
+
+/-! ## `prepare_for_resubmission` -/
+
+theorem range_count_mem (sel : List Nat) (n : Nat) (hnd : sel.Nodup) (hval : ∀ k ∈ sel, k < n) :
+    (List.range' 0 n).countP (fun k => sel.contains k) = sel.length := by
+  rw [List.countP_eq_length_filter]
+  apply List.Perm.length_eq
+  rw [List.perm_ext_iff_of_nodup (List.Nodup.sublist List.filter_sublist (List.nodup_range' (h := Nat.one_pos))) hnd]
+  intro k
+  simp only [List.mem_filter, List.mem_range'_1, List.contains_iff_mem, Nat.zero_le, true_and, Nat.zero_add]
+  exact ⟨fun h => h.2, fun h => ⟨hval k h, h⟩⟩
+
+theorem resubmitLoop_length (sel : List JobId) (bl : List (JobId × List JobId)) :
+    ∀ (jobs : List JobView) (i c : Nat), (resubmitLoop sel bl i jobs c).1.length = jobs.length := by
+  intro jobs
+  induction jobs with
+  | nil => intro i c; rfl
+  | cons v vs ih =>
+    intro i c
+    unfold resubmitLoop
+    split <;> simp [ih]
+
+theorem resubmitLoop_cons_sel (sel : List JobId) (bl : List (JobId × List JobId)) (v : JobView) (vs : List JobView)
+    (i c : Nat) (h : sel.contains i = true) :
+    resubmitLoop sel bl i (v :: vs) c =
+      ({ v with state := resubmitState, blockedBy := (bl.lookup i).getD [] } :: (resubmitLoop sel bl (i + 1) vs c).1,
+       (resubmitLoop sel bl (i + 1) vs c).2) := by
+  rw [resubmitLoop]; simp only [h, if_true]
+
+theorem resubmitLoop_cons_unsel (sel : List JobId) (bl : List (JobId × List JobId)) (v : JobView) (vs : List JobView)
+    (i c : Nat) (h : sel.contains i = false) :
+    resubmitLoop sel bl i (v :: vs) c =
+      (v :: (resubmitLoop sel bl (i + 1) vs (if resubmitCounts v.state then resubmitCompletedInc c else c)).1,
+       (resubmitLoop sel bl (i + 1) vs (if resubmitCounts v.state then resubmitCompletedInc c else c)).2) := by
+  rw [resubmitLoop]; simp only [h, Bool.false_eq_true, if_false]
+
+theorem resubmitLoop_done (sel : List JobId) (bl : List (JobId × List JobId)) :
+    ∀ (jobs : List JobView) (i c : Nat),
+      (resubmitLoop sel bl i jobs c).2 = c + (resubmitLoop sel bl i jobs c).1.countP isDone := by
+  intro jobs
+  induction jobs with
+  | nil => intro i c; rfl
+  | cons v vs ih =>
+    intro i c
+    cases hc : sel.contains i with
+    | true =>
+      rw [resubmitLoop_cons_sel _ _ _ _ _ _ hc]
+      have hv' : isDone { v with state := resubmitState, blockedBy := (bl.lookup i).getD [] } = false := rfl
+      simp only [List.countP_cons, hv', Bool.false_eq_true, if_false, Nat.add_zero]
+      exact ih _ _
+    | false =>
+      rw [resubmitLoop_cons_unsel _ _ _ _ _ _ hc]
+      simp only [List.countP_cons]
+      rw [ih]
+      by_cases hd : v.state = .done
+      · have h1 : resubmitCounts v.state = true := by rw [hd]; rfl
+        have h2 : isDone v = true := by unfold isDone; rw [hd]; rfl
+        simp only [h1, h2, if_true, resubmitCompletedInc]
+        omega
+      · have h1 : resubmitCounts v.state = false := by
+          cases hs : v.state with
+          | done => exact absurd hs hd
+          | notSubmitted => rfl
+          | submitted => rfl
+        have h2 : isDone v = false := by
+          unfold isDone
+          cases hs : v.state with
+          | done => exact absurd hs hd
+          | notSubmitted => rfl
+          | submitted => rfl
+        simp only [h1, h2, Bool.false_eq_true, if_false]
+        omega
+
+/-- when every never-submitted job is selected, the jobs left alone are exactly the submitted-or-done ones -/
+theorem resubmitLoop_subm (sel : List JobId) (bl : List (JobId × List JobId)) :
+    ∀ (jobs : List JobView) (i c : Nat),
+      (∀ (k : Nat) (v : JobView), jobs[k]? = some v → v.state = .notSubmitted → (i + k) ∈ sel) →
+      (resubmitLoop sel bl i jobs c).1.countP isSubm + (List.range' i jobs.length).countP (fun k => sel.contains k)
+        = jobs.length := by
+  intro jobs
+  induction jobs with
+  | nil => intro i c _; rfl
+  | cons v vs ih =>
+    intro i c hall
+    have htail : ∀ (k : Nat) (w : JobView), vs[k]? = some w → w.state = .notSubmitted → (i + 1 + k) ∈ sel := by
+      intro k w hk hs
+      have := hall (k + 1) w (by simpa using hk) hs
+      rw [show i + 1 + k = i + (k + 1) by omega]; exact this
+    simp only [List.length_cons, List.range'_succ, List.countP_cons]
+    cases hc : sel.contains i with
+    | true =>
+      rw [resubmitLoop_cons_sel _ _ _ _ _ _ hc]
+      have hv' : isSubm { v with state := resubmitState, blockedBy := (bl.lookup i).getD [] } = false := rfl
+      have := ih (i + 1) c htail
+      simp only [List.countP_cons, hv', Bool.false_eq_true, if_false, if_true, Nat.add_zero]
+      omega
+    | false =>
+      rw [resubmitLoop_cons_unsel _ _ _ _ _ _ hc]
+      have hns : v.state ≠ .notSubmitted := by
+        intro hs
+        have := hall 0 v (by simp) hs
+        simp only [Nat.add_zero] at this
+        rw [← List.contains_iff_mem, hc] at this; cases this
+      have hv : isSubm v = true := by
+        unfold isSubm
+        cases hs : v.state with
+        | notSubmitted => exact absurd hs hns
+        | submitted => rfl
+        | done => rfl
+      have := ih (i + 1) (if resubmitCounts v.state then resubmitCompletedInc c else c) htail
+      simp only [List.countP_cons, hv, if_true, Bool.false_eq_true, if_false, Nat.add_zero]
+      omega
+
+theorem resubmitLoop_blockers (sel : List JobId) (bl : List (JobId × List JobId)) :
+    ∀ (jobs : List JobView) (i c : Nat),
+      (∀ v ∈ jobs, v.state ≠ .notSubmitted → v.blockedBy = []) →
+      ∀ v ∈ (resubmitLoop sel bl i jobs c).1, v.state ≠ .notSubmitted → v.blockedBy = [] := by
+  intro jobs
+  induction jobs with
+  | nil => intro i c _ v hv; cases hv
+  | cons w ws ih =>
+    intro i c hall v hv hs
+    unfold resubmitLoop at hv
+    split at hv
+    · rcases List.mem_cons.1 hv with e | hv'
+      · subst e; exact absurd rfl hs
+      · exact ih _ _ (fun u hu => hall u (List.mem_cons_of_mem _ hu)) v hv' hs
+    · rcases List.mem_cons.1 hv with e | hv'
+      · subst e; exact hall v (List.mem_cons_self ..) hs
+      · exact ih _ _ (fun u hu => hall u (List.mem_cons_of_mem _ hu)) v hv' hs
+
+/-- `prepare_for_resubmission` by a handle that has just loaded both files (as `resubmit-jobs` does), on a complete and
+    consistent submission, when `jobs_to_resubmit` contains every job that was never submitted: the files are
+    consistent again. -/
+theorem doPrepareResubmit_status (sel : List JobId) (bl : List (JobId × List JobId)) (d : Disk) (x : Handle)
+    (hI : StatusInv d) (hcfg : x.cfg = d.cfg) (hjs : x.js = some d.js) (hcomplete : d.cfg.isComplete = true)
+    (hhash : ∀ c : CfgView, x.cfgHash = some (Snap.cfg c) → c = d.cfg)
+    (hwf : ∀ j' : JsView, x.cfgHash ≠ some (Snap.js j'))
+    (hnd : sel.Nodup) (hval : ∀ k ∈ sel, k < d.js.jobs.length)
+    (hall : ∀ (k : Nat) (v : JobView), d.js.jobs[k]? = some v → v.state = .notSubmitted → k ∈ sel) :
+    (doPrepareResubmit sel bl d x).2.2 = .ok ∧ StatusInv (doPrepareResubmit sel bl d x).1 ∧
+    (doPrepareResubmit sel bl d x).1.cfg.isComplete = false := by
+  unfold doPrepareResubmit
+  have h0 : resubmitAssert x.cfg.isComplete = true := by rw [resubmitAssert_iff, hcfg]; exact hcomplete
+  simp only [h0, if_true, hjs]
+  obtain ⟨r1, _, r3, r4, r5⟩ := serializeBoth_result d
+    { x with cfg := resubmitCfg x.cfg sel (resubmitLoop sel bl 0 d.js.jobs resubmitCompletedInit).2,
+             js := some { d.js with jobs := (resubmitLoop sel bl 0 d.js.jobs resubmitCompletedInit).1 } }
+    { d.js with jobs := (resubmitLoop sel bl 0 d.js.jobs resubmitCompletedInit).1 }
+    (by show x.cfg.version = d.cfgVer; rw [hcfg]; exact hI.verCfg) hI.verJs hhash hwf
+  generalize serializeBoth d _ _ = o at r1 r3 r4 r5
+  have hlen := resubmitLoop_length sel bl d.js.jobs 0 resubmitCompletedInit
+  have hdone := resubmitLoop_done sel bl d.js.jobs 0 resubmitCompletedInit
+  have hsub := resubmitLoop_subm sel bl d.js.jobs 0 resubmitCompletedInit
+    (by intro k v hk hs; rw [Nat.zero_add]; exact hall k v hk hs)
+  rw [range_count_mem sel _ hnd hval] at hsub
+  have hblk := resubmitLoop_blockers sel bl d.js.jobs 0 resubmitCompletedInit hI.blockers
+  have hsubmitted : (resubmitSubmitted x.cfg.numJobs sel).toNat =
+      (resubmitLoop sel bl 0 d.js.jobs resubmitCompletedInit).1.countP isSubm := by
+    unfold resubmitSubmitted
+    rw [hcfg, hI.total]
+    omega
+  refine ⟨r1, ?_, ?_⟩
+  · rcases r5 with ⟨c1, c2, c3, _⟩ | ⟨c1, c3, _⟩
+    · -- the config was not rewritten because it equals the disk's: impossible, `is_complete` changed
+      exfalso
+      have := congrArg CfgView.isComplete c2
+      simp only [resubmitCfg, resubmitIsComplete] at this
+      rw [hcomplete] at this; cases this
+    · refine ⟨?_, ?_, ?_, by rw [r3]; exact hblk, by rw [c1, c3], by rw [r3, r4]⟩
+      · rw [c1, r3]; show x.cfg.numJobs = _; rw [hlen, hcfg]; exact hI.total
+      · rw [c1, r3]; show (resubmitLoop sel bl 0 d.js.jobs resubmitCompletedInit).2 = _
+        rw [hdone]; simp [resubmitCompletedInit]
+      · rw [c1, r3]; exact hsubmitted
+  · rcases r5 with ⟨_, c2, _, _⟩ | ⟨c1, _, _⟩
+    · exfalso
+      have := congrArg CfgView.isComplete c2
+      simp only [resubmitCfg, resubmitIsComplete] at this
+      rw [hcomplete] at this; cases this
+    · rw [c1]; rfl
+
 end Jade.Cluster
